@@ -1,6 +1,7 @@
 //! One module per property added after the first round: scenario jobs, registry entry.
 
 pub mod c04;
+pub mod c14;
 
 use crate::scenario::*;
 
